@@ -346,6 +346,23 @@ def apply_op(v, op, operand):
         return v if mut else r
     if name == 'conv':
         return AnsiString(v) if op['to'] == 'S' else AnsiStr(v)
+    if name == 'setansi':
+        if mut:
+            v.set_ansi_str(op['t'])
+            return v
+        return AnsiStr(op['t'])
+    if name == 'applymatch':
+        import re as _re
+        mo = _re.search(op['pat'], v.base_str)
+        if mo is None:
+            raise Rejected('no match')
+        g = op.get('g', 0) if op.get('g', 0) <= mo.re.groups else 0
+        if mo.start(g) < 0:
+            raise Rejected('group did not participate')
+        if mut:
+            v.apply_formatting_for_match(_sets(op), mo, g)
+            return v
+        return v.apply_formatting_for_match(_sets(op), mo, g)
     if name == 'q_format':
         how = op.get('how', 0) % 3
         if how == 0:
